@@ -37,6 +37,9 @@ CORPUS = [
 ]
 
 
+ASYNC_KINDS = ["buffer", "delay", "rate_limit", "map_async", "timed_window", "partition_timeout"]
+
+
 def run(ctx):
     ctx.audit()
     n = 300 if not ctx.thorough() else 10000
@@ -44,6 +47,10 @@ def run(ctx):
     # metadata must stay attached to the right data after a fault as well (a consumer raising in the middle of a
     # flush / window emission): compared against the model on every later event (the oracle stops at the fault)
     graphcheck.run_family(ctx, n // 3, ASPECTS, CHECKS, SIGS, fail_prob=0.25, corpus=CORPUS_FAULT)
+    # asynchronous nodes (buffer / delay / rate_limit / map_async / timed_window / partition with timeout): the metadata entries each sink
+    # has received at quiescence, in order, against the same pipeline with the timing removed
+    from . import _async_common as A
+    A.sweep(ctx, 100 if not ctx.thorough() else 3000, ASYNC_KINDS, ["metadata"], ("metadata",), p_zip=0.1, opts={"p_multi": 0.2})
     ctx.coverage["rule"] = ("as C01; every emission carries 0, 1 or 2 tagged metadata dictionaries (70% of emissions carry some). "
                             "Non-trivial: pipeline has a combining/batching/dropping node and >= 8 flow events.")
     ctx.assumptions += ["metadata dictionaries are identified by an integer tag; reference counters are a logging RefCounter subclass"]
@@ -51,5 +58,10 @@ def run(ctx):
 
 def replay(ctx, data):
     ctx.audit()
-    graphcheck.replay_case(ctx, data["case"], ASPECTS, CHECKS, SIGS)
+    case = data["case"]
+    if case.get("mode") == "async" and any(n["kind"] in ASYNC_KINDS for n in case["nodes"]):
+        from .. import asynccheck as ac
+        ac.evaluate(ctx, case, ac.rerun(case), ["metadata"], ("metadata",))
+    else:
+        graphcheck.replay_case(ctx, case, ASPECTS, CHECKS, SIGS)
     ctx.coverage["rule"] = "replay of one recorded case"
